@@ -62,7 +62,7 @@ def tuplet_groups(q):
 
 class PartBuilder:
     def __init__(self, rng, pid, features, *, divs=None, n_measures=None, voice_base=0, max_alter=1,
-                 meters=None, staves=None, voices=None, part_name=None):
+                 meters=None, staves=None, voices=None, part_name=None, skeleton=None):
         import partitura.score as S
         self.S = S
         self.rng = rng
@@ -71,15 +71,16 @@ class PartBuilder:
         self.max_alter = max_alter
         self.voice_base = voice_base
         self.meters = meters or METERS
+        self.skeleton = skeleton       # [(ts, length in quarters)] per measure: follow another part's bar structure
         rng_ = rng
         self.divs0 = divs if divs is not None else rng_.choice(DIVS_POOL)
-        self.n_measures = n_measures or rng_.randint(2, 7)
+        self.n_measures = len(skeleton) if skeleton else (n_measures or rng_.randint(2, 7))
         self.n_staves = staves or (rng_.choice([1, 2, 2, 3]) if "multistaff" in self.f else 1)
         self.n_voices = voices or (rng_.randint(2, 4) if "multivoice" in self.f else 1)
         self.part = S.Part(pid, part_name if part_name is not None else f"Part {pid}", quarter_duration=self.divs0)
         self.meta = {"id": pid, "divs": [], "ts": [], "ties": 0, "graces": 0, "tuplets": 0, "chords": 0, "notes": 0,
                      "rests": 0, "pickup": 0, "measures": [], "slurs": 0, "directions": 0, "keys": 0, "clefs": 0,
-                     "voices": self.n_voices, "staves": self.n_staves, "features": sorted(self.f)}
+                     "voices": self.n_voices, "staves": self.n_staves, "features": sorted(self.f), "skeleton": []}
         self.nid = 0
         self.pending_tie = {}      # voice -> list of notes to be continued in the next measure
         self.all_notes = []
@@ -105,7 +106,7 @@ class PartBuilder:
         meters = self.compatible_meters(q)
         if not meters:
             meters = [(4, 4)]
-        ts = rng.choice(meters)
+        ts = self.skeleton[0][0] if self.skeleton else rng.choice(meters)
         t = 0
         part.add(S.TimeSignature(*ts), 0)
         self.meta["ts"].append((0, ts))
@@ -122,7 +123,12 @@ class PartBuilder:
         number = 0
         for mi in range(self.n_measures):
             # signature / divisions changes at barlines (never in the pickup)
-            if mi > 0:
+            if mi > 0 and self.skeleton:
+                if self.skeleton[mi][0] != ts:
+                    ts = self.skeleton[mi][0]
+                    part.add(S.TimeSignature(*ts), t)
+                    self.meta["ts"].append((t, ts))
+            elif mi > 0:
                 if "div_changes" in self.f and rng.random() < 0.3:
                     cands = [d for d in DIVS_POOL if d != q and (4 * d * ts[0]) % ts[1] == 0 and self.bar_ok(d, *ts)]
                     if cands:
@@ -144,7 +150,11 @@ class PartBuilder:
                     self.meta["clefs"] += 1
             bar = 4 * q * ts[0] // ts[1]
             length = bar
-            if mi == 0 and "pickup" in self.f:
+            if self.skeleton:
+                length = int(self.skeleton[mi][1] * q)
+                if mi == 0 and length < bar:
+                    self.meta["pickup"] = length
+            elif mi == 0 and "pickup" in self.f:
                 u = min(straight_durations(q))
                 k = rng.randint(1, max(1, bar // u - 1))
                 if k * u < bar:
@@ -154,6 +164,7 @@ class PartBuilder:
             m = S.Measure(number=number, name=str(number))
             part.add(m, t, t + length)
             self.meta["measures"].append((t, t + length, number))
+            self.meta["skeleton"].append((ts, Fraction(length, q)))
             self.fill_measure(t, length, q, last=(mi == self.n_measures - 1))
             t += length
         self.end = t
@@ -341,13 +352,43 @@ def make_part(rng, pid="P1", profile="rhythm", features=None, **kw):
     return b.build()
 
 
-def make_score(rng, profile="rhythm", n_parts=None, features=None, groups=False, **kw):
+def skeleton_divs(skeleton, pool=DIVS_POOL):
+    """divisions under which every measure of the skeleton has an integer, fillable length"""
+    out = []
+    for q in pool:
+        ok = True
+        for ts, lq in skeleton:
+            L = lq * q
+            if L.denominator != 1 or (4 * q * ts[0]) % ts[1] or int(L) % min(straight_durations(q)):
+                ok = False
+                break
+        if ok:
+            out.append(q)
+    return out
+
+
+def make_score(rng, profile="rhythm", n_parts=None, features=None, groups=False, aligned=True, divs_list=None, **kw):
+    """aligned=True: all parts share the first part's bar structure (meters, pickup), as parts of one score do."""
     import partitura.score as S
     n = n_parts or rng.choice([1, 1, 2, 3])
     parts, metas = [], []
-    vb = 0
+    skeleton = None
     for i in range(n):
-        p, meta = make_part(rng, f"P{i + 1}", profile, features, voice_base=0, **dict(kw))
+        k = dict(kw)
+        if divs_list is not None:
+            k["divs"] = divs_list[i]
+        if skeleton is not None:
+            feats = [f for f in (pick_features(rng, profile) if features is None else features) if f not in ("div_changes", "ts_changes", "pickup")]
+            if "divs" not in k:
+                k["divs"] = rng.choice(skeleton_divs(skeleton) or [metas[0]["divs"][0][1]])
+            p, meta = make_part(rng, f"P{i + 1}", profile, feats, skeleton=skeleton, **k)
+        else:
+            feats = features
+            if aligned and n > 1:
+                feats = [f for f in (pick_features(rng, profile) if features is None else features) if f != "div_changes"]
+            p, meta = make_part(rng, f"P{i + 1}", profile, feats, **k)
+            if aligned:
+                skeleton = meta["skeleton"]
         parts.append(p)
         metas.append(meta)
     structure = parts
